@@ -44,6 +44,7 @@ def dispatch (line : String) : Verdict :=
   | "C01" :: args => handVerdict "C01" args r
   | "C13" :: args => c13 args r
   | "C14" :: "hand" :: args => handVerdict "C14" ("hand" :: args) r
+  | "C14" :: "stats" :: args => handVerdict "C14" ("stats" :: args) r
   | "C14" :: args => c14 args r
   | _ => vBad line
 
